@@ -180,6 +180,15 @@ impl World {
                 if let Ok(resp) = s.krill.repo_manager().repository_response(
                     &PublisherHandle::from_str("ta").unwrap(), s.krill.runtime()) {
                     if let Ok(cert) = resp.validate() {
+                        // a new server identity (the repository was cleared and initialised again): the former key
+                        // stays known as `srv-old`, `srv` is the current one
+                        let ki = cert.public_key().key_identifier();
+                        if !self.idkeys.iter().any(|(k, w)| w == "srv" && k.key_identifier() == ki) {
+                            for (_, w) in self.idkeys.iter_mut() {
+                                if w == "srv" { *w = "srv-old".into(); }
+                            }
+                            self.idkeys.retain(|(k, _)| k.key_identifier() != ki);
+                        }
                         add.push((cert.public_key().clone(), "srv".into()));
                     }
                 }
@@ -1340,6 +1349,30 @@ impl World {
                 rm.remove_publisher(h.convert(), &actor, self.a.krill.runtime())?;
                 let req = idexchange::PublisherRequest::new(c.id_cert().base64.clone(), h.convert(), None);
                 rm.create_publisher(req, &actor)?;
+                Ok("ok".into())
+            }
+            // The operator clears the publication server and initialises it again (`krillc pubserver server clear` +
+            // `init`): every publisher is removed, the server gets a NEW identity key; the publishers are then
+            // registered again with their current ID certificates. Replies must be signed with the new key from now on.
+            ["pubdreinit"] => {
+                let cm = self.a.krill.ca_manager();
+                let rm = self.a.krill.repo_manager();
+                let rt = self.a.krill.runtime();
+                let pubs = rm.publishers()?;
+                for p in &pubs {
+                    rm.remove_publisher(p.clone(), &actor, rt)?;
+                }
+                rm.repository_clear()?;
+                let testbed = self.a.krill.config().testbed().expect("testbed").clone();
+                rm.init(testbed.publication_server_uris(), rt)?;
+                for p in &pubs {
+                    if p.as_str() == "ta" {
+                        rm.create_publisher(cm.ta_proxy_publisher_request()?, &actor)?;
+                    } else if let Ok(c) = cm.get_ca(&CaHandle::from_str(p.as_str()).unwrap()) {
+                        let req = idexchange::PublisherRequest::new(c.id_cert().base64.clone(), p.clone(), None);
+                        rm.create_publisher(req, &actor)?;
+                    }
+                }
                 Ok("ok".into())
             }
             // ---------------- CMS
